@@ -618,3 +618,6 @@ PROPS["C18"]["proofs"] = PROPS["C18"]["proofs"] + ["Bmc.Proofs.EndToEnd.MetricsC
 PROPS["C18"]["claim"] += (" END TO END: generated_session_SendCommand_accounting, generated_sessionless_SendCommand_accounting (Proofs/EndToEnd/MetricsC18.lean) — the Prometheus calls of "
                           "SendCommand AS TRANSLATED ON THIS RUN, applied to any metric values, satisfy the per-command accounting laws (attempts +1 for this name only, failures +1 exactly "
                           "when no accepted final response that decodes, retries = closure runs beyond the first, responses per code, other metrics untouched).")
+PROPS["C05"]["proofs"] = PROPS["C05"]["proofs"] + ["Bmc.Proofs.EndToEnd.SafeC05"]
+PROPS["C05"]["claim"] += (" END TO END: generated_*_safe (Proofs/EndToEnd/SafeC05.lean; 30 theorems) — every DecodeFromBytes AS TRANSLATED ON THIS RUN, and the cipher-suite record parser, "
+                          "from any receiver content on any Go slice, never ends in a panic, a read beyond len or an exhausted loop fuel.")
